@@ -177,10 +177,15 @@ def real_loop_parity(ctx, pexpect, n):
     tried = 0
     for it in range(n):
         uni = rng.random() < 0.4
+        errors = rng.choice(['strict', 'replace', 'ignore'])
         E = (lambda s: s) if uni else (lambda s: s.encode())
         nsteps = rng.randint(2, 4)
         text = ''.join(rng.choice(['a', 'b', '\n', '1', 'é'] if uni else ['a', 'b', '\n', '1']) for _ in range(rng.randint(0, 4 * nsteps)))
         raw = text.encode('utf-8')
+        truncated = False
+        if uni and rng.random() < 0.3:
+            raw += 'é'.encode('utf-8')[:1]          # the stream ends in the middle of a character
+            truncated = True
         cuts = sorted(rng.randrange(len(raw) + 1) for _ in range(nsteps - 1))
         pieces, prev = [], 0
         for c_ in cuts + [len(raw)]:
@@ -195,16 +200,37 @@ def real_loop_parity(ctx, pexpect, n):
             else:
                 pat = [E(rng.choice(['a+', 'b.', r'\d*', '$', 'a|b', '[ab]1', ''])), pexpect.TIMEOUT]
             # (data written before the call, close the writer before the call, let the event loop idle before the call)
-            steps.append((data, kind, pat, rng.random() < 0.15, rng.random() < 0.5))
+            close_after = rng.random() < 0.15 or (truncated and k == nsteps - 1)
+            # an abandoned call: the caller gives up on it (awaited: the coroutine is cancelled by an outer wait_for; blocking: it
+            # times out); what arrives afterwards must be found by the next call all the same
+            abandon = rng.random() < 0.2 and not close_after
+            if abandon:
+                pat = [p for p in pat if p is not pexpect.TIMEOUT]
+            steps.append((data, kind, pat, close_after, rng.random() < 0.5 or abandon, abandon))
         results = {}
         for how in ('blocking', 'await'):
             r, w = os.pipe()
-            c = fdpexpect.fdspawn(r, timeout=5, encoding='utf-8' if uni else None)
+            c = fdpexpect.fdspawn(r, timeout=5, encoding='utf-8' if uni else None, codec_errors=errors)
             out = []
 
             async def go():
                 nonlocal w
-                for data, kind, pat, close_after, idle in steps:
+                for data, kind, pat, close_after, idle, abandon in steps:
+                    if abandon:
+                        fn = c.expect_exact if kind == 'exact' else c.expect
+                        try:
+                            if how == 'await':
+                                idx = await asyncio.wait_for(fn(pat, timeout=5, async_=True), 0.1)
+                            else:
+                                idx = fn(pat, timeout=0.1)
+                            out.append(('ret', idx, c.before, c.after if not isinstance(c.after, type) else c.after.__name__, c.buffer))
+                        except (asyncio.TimeoutError, pexpect.TIMEOUT):
+                            out.append(('abandoned',))
+                        except pexpect.EOF:
+                            out.append(('EOF', None, c.before, None, c.buffer))
+                            break
+                        if any(o[0] == 'EOF' or (o[0] == 'ret' and o[3] == 'EOF') for o in out):
+                            break          # the property compares up to and including the first EOF
                     if data and w is not None:
                         os.write(w, data)
                     if close_after and w is not None:
@@ -255,7 +281,7 @@ def real_loop_parity(ctx, pexpect, n):
         tried += 1
         if results['blocking'] != results['await']:
             ctx.hit('C14/parity', 'same writes, same calls: blocking gives %r, awaited gives %r' % (results['blocking'], results['await']),
-                    {'steps': [(repr(d), k, [p if isinstance(p, (str, bytes)) else p.__name__ for p in pat], cl, idle) for d, k, pat, cl, idle in steps], 'unicode': uni})
+                    {'steps': [(repr(d), k, [p if isinstance(p, (str, bytes)) else p.__name__ for p in pat], cl, idle, ab) for d, k, pat, cl, idle, ab in steps], 'unicode': uni, 'codec_errors': errors})
             return
     ctx.oracle_stats['real_loop_scenarios'] = tried
 
